@@ -64,6 +64,13 @@ def run(ctx):
         # missing path -> returns without writing
         ws = [n for n in f.walk() if write_target(n) is not None and strip(write_target(n))["k"] == "MemberExpr"]
         R.ob("C25-R2", not ws, fname, "no member writes", "%s:%d" % (f.relfile, f.d["line"]), "no write to any member on the read path")
+    # remove() is a writer, but only of the entry it names: walking to it must not create anything
+    rmv = walkers["remove"]
+    rname = "%s %s" % (rmv.q, rmv.d["sig"])
+    idx = [n for n in rmv.walk() if n["k"] == "CXXOperatorCallExpr" and n.get("op") == "[]" and callee(n).startswith("std::map")]
+    R.ob("C25-R2", not idx, rname, "lookup:find (remove creates nothing)", rmv.site(idx[0]) if idx else "%s:%d" % (rmv.relfile, rmv.d["line"]),
+         "children looked up with find() / erased, never indexed" if not idx else
+         "remove() walks the object with std::map::operator[], which inserts a missing key: j.remove(\"x/y\") on an object without \"x\" leaves a phantom \"x\" behind (has(\"x\") becomes true, size() grows, += copies it)")
     # get<T> goes through getPathValue (header template): checked on the pattern if present
     gets = [f for f in prog.fns(J + "get", tmpl="pattern")]
     for f in gets:
